@@ -102,11 +102,17 @@ func (s *Scraper) ParseResponse(do func(rows []parser.Row) error) error {
 		}
 	}()
 
-	return parser.ParseStream(s.reader, time.Now().UnixNano()/1e6,
+	err := parser.ParseStream(s.reader, time.Now().UnixNano()/1e6,
 		false,
 		do, func(str string) {
 			s.log.Print(str)
 		})
+	// the stream parser takes some read errors ("connection reset by peer") for the end of
+	// the body; a body that could not be read to its end is a failed scrape
+	if wr, ok := s.reader.(*wrappedReader); ok && err == nil && wr.readErr != nil {
+		return errors.Wrap(wr.readErr, "read body")
+	}
+	return err
 }
 
 // StatisticsSeriesResult is the samples count in one scrape
